@@ -208,6 +208,14 @@ func (c *Ctx) sortedBeforeSinkRule(fname string) {
 		return ok
 	}
 	recv, par := recvAndParam(d)
+	type leakSite struct {
+		local   types.Object // local sorted-or-not slice ranged over (nil: operand field)
+		loopPos token.Pos
+		pos     token.Pos
+		key     string
+		over    string
+	}
+	var leakSites []leakSite
 	mentionsOperand := func(e ast.Expr) bool {
 		found := false
 		ast.Inspect(e, func(n ast.Node) bool {
@@ -330,6 +338,41 @@ func (c *Ctx) sortedBeforeSinkRule(fname string) {
 					})
 				}
 			}
+			// position leak: the index of a range over a collection in stored order reaches the
+			// encoding (Sprintf argument / concatenation / appended value)
+			if k, ok := s.Key.(*ast.Ident); ok && k.Name != "_" {
+				ko := objOf(d.pkg, k)
+				xo := objOf(d.pkg, s.X)
+				stored := mentionsOperand(s.X)
+				var local types.Object
+				if xo != nil && isLocal(d, xo) && isSlice(xo) {
+					stored = true
+					local = xo
+				}
+				if t := info.TypeOf(s.X); t != nil {
+					if _, isMap := t.Underlying().(*types.Map); isMap {
+						stored = false // map keys are data, handled by the sort rules
+					}
+				}
+				if stored && ko != nil {
+					ast.Inspect(s.Body, func(m ast.Node) bool {
+						ce, ok := m.(*ast.CallExpr)
+						if !ok {
+							return true
+						}
+						f, _ := typeutil.Callee(info, ce).(*types.Func)
+						if f == nil || f.FullName() != "fmt.Sprintf" {
+							return true
+						}
+						for _, a := range ce.Args[1:] {
+							if objOf(d.pkg, a) == ko {
+								leakSites = append(leakSites, leakSite{local, s.Pos(), ce.Pos(), k.Name, types.ExprString(s.X)})
+							}
+						}
+						return true
+					})
+				}
+			}
 			// concatenation loop over a local slice: for _, s := range vals { ret += ... }
 			o := objOf(d.pkg, s.X)
 			if !isSlice(o) || !isLocal(d, o) {
@@ -379,6 +422,15 @@ func (c *Ctx) sortedBeforeSinkRule(fname string) {
 			}
 		}
 		return true, ""
+	}
+	for _, ls := range leakSites {
+		if ls.local != nil {
+			if ok, _ := canonicalAt(ls.local, ls.loopPos, 0); ok {
+				continue // position in a canonically ordered slice is itself canonical
+			}
+		}
+		c.bad("position-leak", fmt.Sprintf("%s#%s in range %s", fname, ls.key, ls.over), c.P.Pos(ls.pos),
+			fmt.Sprintf("the position %s of an element in the stored order of %s is written into the encoding: two values holding the same elements in a different order encode differently, so equality and checksums depend on the order of a set-valued attribute", ls.key, ls.over))
 	}
 	var objs []types.Object
 	for o := range events {
